@@ -191,6 +191,9 @@ func (p *parser) term() (*Term, error) {
 	case c == '$':
 		p.i++
 		t = &Term{Op: "var", Name: p.ident()}
+	case c == '#':
+		p.i++
+		t = &Term{Op: "param", Name: "#" + p.ident()}
 	case c == '?':
 		p.i++
 		t = &Term{Op: "opaque", Name: p.ident()}
@@ -318,6 +321,36 @@ func Match(p, t *Term, env map[string]*Term) bool {
 		}
 		env[p.Name] = t
 		return true
+	}
+	if p.Op == "op" {
+		switch p.Name {
+		case "each": // every control-flow alternative matches
+			if t.Op == "phi" {
+				for _, a := range t.Args {
+					if !Match(p, a, env) {
+						return false
+					}
+				}
+				return true
+			}
+			return Match(p.Args[0], t, env)
+		case "has": // some sub-term matches
+			found := false
+			t.Walk(func(s *Term) bool {
+				if !found && Match(p.Args[0], s, env) {
+					found = true
+				}
+				return !found
+			})
+			return found
+		case "alt":
+			for _, a := range p.Args {
+				if Match(a, t, env) {
+					return true
+				}
+			}
+			return false
+		}
 	}
 	if t.Op == "opaque" {
 		return false
